@@ -243,6 +243,12 @@ PREC = {ast.Or: 1, ast.And: 2, ast.BitOr: 5, ast.BitXor: 6, ast.BitAnd: 7, ast.L
 OPERATORS = (ast.BinOp, ast.UnaryOp, ast.BoolOp, ast.Compare, ast.IfExp)
 
 
+MECH_PRIORITY = ['one-tuple', 'cmp-chain', 'in-literal-container', 'ifexp-operand', 'ifexp-in-ifexp-head', 'same-prec-right-operand',
+                 'postfix-on-operator', 'attribute-of-number', 'low-prec-cmp-operand', 'low-prec-bool-operand', 'cmp-or-bool-as-arith-operand',
+                 'not-as-arith-operand', 'pow-left-operand', 'pow-right-unary', 'unary-of-BinOp', 'unary-of-IfExp', 'unary-of-Compare',
+                 'unary-of-BoolOp', 'complex', 'ellipsis', 'bytes', 'str-needs-escape', 'non-ascii-str', 'call']
+
+
 def expr_features(src):
     """structural features of a default expression that decide how it must be parenthesised when re-printed"""
     feats = set()
@@ -447,7 +453,11 @@ def main(ck):
                                 srcs.append((src, d1, d2))
                                 tag = 'eval-failed' if str(d2).startswith("['str', \"'eval-failed") or 'eval-failed' in str(d2) else 'value'
                                 feats |= {tag + ':' + x for x in expr_features(src or '')}
-                        detail = 'default:' + '+'.join(sorted(feats))
+                        # one mechanism per key: the first feature of the priority list that is present
+                        plain = {x.split(':', 1)[1] for x in feats}
+                        tag = 'eval-failed' if any(x.startswith('eval-failed') for x in feats) else 'value'
+                        mech = next((m for m in MECH_PRIORITY if m in plain), '+'.join(sorted(plain)))
+                        detail = 'default:%s:%s' % (tag, mech)
                         what = '%s defaults differ: %s' % (aspect, srcs)
                 elif aspect == 'doc':
                     detail = 'has-doc' if f['info']['doc'] else 'no-doc'
